@@ -521,3 +521,32 @@ Proof.
   induction HF as [|c cols' Hc _ IH]; [reflexivity|]. destruct Hc as (Hok & _).
   cbn [flat_map]. rewrite forallb_app, Hok, IH. reflexivity.
 Qed.
+
+(* ========================================================================== *)
+(* 6. bit level: the fields of a numeric column are the reference bit layout    *)
+(*    of Column.v (lay_col_num: base, 6-bit width, increments, MSB first)       *)
+(* ========================================================================== *)
+Theorem num_fields_bits w raws o :
+  col_dom_num w false raws = true ->
+  write_fields (num_fields w false raws) o =
+  Ok (o ++ lay_col_num w (Z.of_N (canon_width (col_spread raws))) (Z.to_N (col_min w raws)) (raw_view raws)).
+Proof.
+  intros Hdom. unfold col_dom_num in Hdom.
+  apply andb_true_iff in Hdom as [H Hspread]. apply andb_true_iff in H as [H Hrange].
+  apply andb_true_iff in H as [H Hflag]. apply andb_true_iff in H as [Hw2 Hw64].
+  rewrite forallb_forall in Hrange.
+  destruct raws as [|v0 raws']; [discriminate|]. set (raws := v0 :: raws') in *.
+  cbn [col_flag_ok raws] in Hflag. fold raws in Hflag.
+  destruct (minmax raws) as [[mn mx]|] eqn:Hmm.
+  2:{ exfalso. apply existsb_exists in Hflag as (v & Hin & Hv).
+      rewrite (proj1 (minmax_none raws) Hmm v Hin) in Hv. discriminate. }
+  destruct (minmax_spec raws mn mx Hmm) as (Imn & Imx & Hall).
+  destruct (minmax_zmin _ _ _ Hmm) as (Hmin & Hmax).
+  pose proof (Hrange _ Imn) as Hmn. cbn in Hmn.
+  unfold col_spread_ok in Hspread. rewrite Hmm in Hspread.
+  assert (Hle : (mn <= mx)%Z) by (destruct (Hall mx Imx); lia).
+  destruct (enc_col_num_layout w raws o mn mx) as (_ & _ & Henc); [lia|discriminate|exact Hmm|lia|lia|].
+  destruct (enc_col_num_fields w false raws o _ Henc) as (Hw & _); [discriminate|].
+  rewrite Hw. unfold col_spread, col_min. rewrite Hmin, Hmax. rewrite canon_width_nbits.
+  repeat f_equal. lia.
+Qed.
